@@ -24,9 +24,9 @@ PROP = "C17"
 
 TIERS = {
     "quick": {"sessions": 5, "workers": 3, "single": 36, "multi": 320,
-              "budget_s": None},
+              "budget_s": None, "worlds": 120},
     "thorough": {"sessions": 400, "workers": 4, "single": 60, "multi": 400,
-                 "budget_s": 25 * 60},
+                 "budget_s": 25 * 60, "worlds": 300},
 }
 
 ASSUMPTIONS = [
@@ -187,6 +187,45 @@ def run_session(task):
                     "record_fields": {k: (v if not isinstance(v, str)
                                           else v[:400]) for k, v in rec0.items()},
                     "productions_compared": len(lst)})
+        # one interpreter per rank vs all ranks in one interpreter: the same
+        # recipe, the same (plain, rank-order) reduction; every rank's
+        # partition and tag numbering must be the same text in both worlds
+        from simkit import procranks
+        nworld = 0
+        for ri, entry in enumerate(recipes):
+            if entry["kind"] != "multi" or nworld >= conf.get("worlds", 0):
+                continue
+            rc = entry["recipe"]
+            if not (2 <= rc["nranks"] <= len(workers)):
+                continue
+            nworld += 1
+            try:
+                ref = workers[0].call("c17_multi", recipe=rc, sim_seed=0,
+                                      fixed=True)
+                state, results, _st = procranks.run(
+                    workers, rc, random.Random(0), shuffle=False)
+            except fleet.WorkerError as e:
+                res["harness"].append(f"world run: {str(e)[-400:]}")
+                continue
+            res["world_runs"] = res.get("world_runs", 0) + 1
+            for r in range(rc["nranks"]):
+                got = results[r].get("text") if state[r] == "returned" else \
+                    f"{state[r]} {str(results.get(r))[:200]}"
+                if got != ref.get(f"rank{r}"):
+                    d = list(difflib.unified_diff(
+                        str(ref.get(f"rank{r}")).splitlines(),
+                        str(got).splitlines(), lineterm="", n=0))[2:8]
+                    res["violations"].append({
+                        "class": "differs-between-one-interpreter-and-one-"
+                                 "interpreter-per-rank:partition",
+                        "recipe": entry, "field": f"rank{r}",
+                        "diff": [ln[:240] for ln in d], "world": True,
+                        "a": {"worker": 0, "config": cfgs[0], "production": 0,
+                              "history": []},
+                        "b": {"worker": r, "config": cfgs[r], "production": 0,
+                              "history": []},
+                        "configs": cfgs})
+                    break
         for ri, outs in probes.items():
             res["probes"] += 1
             if any(o != outs[0] for o in outs[1:]):
@@ -229,9 +268,31 @@ def _produce(cfg, recipe_entry, history=None, recipes=None):
         w.close()
 
 
+def _world_differs(cfgs, rc):
+    from simkit import procranks
+    ws = [fleet.Worker(c["hashseed"], c["prelude"], f"w{i}")
+          for i, c in enumerate(cfgs)]
+    try:
+        ref = ws[0].call("c17_multi", recipe=rc, sim_seed=0, fixed=True)
+        state, results, _st = procranks.run(ws, rc, random.Random(0),
+                                            shuffle=False)
+    finally:
+        for w in ws:
+            w.close()
+    for r in range(rc["nranks"]):
+        got = results[r].get("text") if state[r] == "returned" else \
+            f"{state[r]} {str(results.get(r))[:200]}"
+        if got != ref.get(f"rank{r}"):
+            return True, (f"rank{r}", [str(ref.get(f"rank{r}"))[:300],
+                                       str(got)[:300]])
+    return False, (None, [])
+
+
 def replay_doc(doc):
     """re-launch the two interpreters; True iff their records differ again"""
     entry = doc["recipe_entry"]
+    if doc.get("world"):
+        return _world_differs(doc["configs"], entry["recipe"])
     a = _produce(doc["a"]["config"], entry)
     b = _produce(doc["b"]["config"], entry)
     if a != b:
@@ -269,6 +330,10 @@ def minimise(v, budget_s=120.0):
 
     def differs(e):
         try:
+            if v.get("world"):
+                if e["recipe"]["nranks"] < 2:
+                    return False
+                return _world_differs(v["configs"], e["recipe"])[0]
             return _produce(ca, e) != _produce(cb, e)
         except Exception:  # noqa: BLE001
             return False
@@ -334,7 +399,8 @@ def run_check(tier, budget_s=None):
             doc = {"property": PROP, "seed": seed, "session": r["session"],
                    "class": v["class"], "field": v["field"], "diff": v["diff"],
                    "recipe_entry": entry, "a": v["a"], "b": v["b"],
-                   "session_recipes": None}
+                   "session_recipes": None, "world": bool(v.get("world")),
+                   "configs": v.get("configs")}
             if not confirmed:
                 # needs the allocation history: ship the session's recipes
                 _cfgs, recipes, _plans = _session_plan(seed, r["session"], conf)
@@ -380,6 +446,8 @@ def run_check(tier, budget_s=None):
         "distinct_fingerprints": len(fps),
         "record_comparisons": sum(r["compared"] for r in results),
         "junk_history_ops": sum(r["junk_ops"] for r in results),
+        "one_interpreter_per_rank_worlds_compared":
+            sum(r.get("world_runs", 0) for r in results),
         "set_order_probes": sum(r["probes"] for r in results),
         "set_order_probes_that_differed_between_interpreters":
             sum(r["probe_diff"] for r in results),
